@@ -191,3 +191,12 @@ func (m *elemModel) newFE(it *absint.Interp, name string, v *absint.Poly) *absin
 	it.SetMont(FP, m.limbCell(o.Root), v)
 	return o
 }
+
+// newElemLocal allocates a non-input Element (a value created by a summary).
+func (m *elemModel) newElemLocal(it *absint.Interp, name string, x, y, z *absint.Poly) *absint.Object {
+	o := it.NewObject(m.elemT, name, false)
+	it.SetMont(FP, m.limbCell(o.Root.Kids[m.ix]), x)
+	it.SetMont(FP, m.limbCell(o.Root.Kids[m.iy]), y)
+	it.SetMont(FP, m.limbCell(o.Root.Kids[m.iz]), z)
+	return o
+}
